@@ -134,6 +134,23 @@ def inprocess_case(case):
         for i in range(case["repeat"]):
             again = must("repeated-dumps", dump)
             check(again == first, "bytes-depend-on-dump-count", lambda: "%s: dump #%d differs: %s" % (fmt, i + 1, first_difference(first, again)))
+    if fmt == "extra_files":
+        # dump_for_tree is a dump too: it must not change what later dumps write
+        import io
+        from productmd.extra_files import ExtraFiles
+        obj = ExtraFiles()
+        mf.fill_compose(obj)
+        for op in desc["ops"]:
+            if mf.extra_model_apply({}, op):
+                mf.extra_call(obj, op)
+        before = must("dumps", obj.dumps)
+        for variant in sorted(obj.extra_files):
+            for arch in sorted(obj.extra_files[variant]):
+                for entry in list(obj.extra_files[variant][arch])[:2]:
+                    base = entry["file"].rsplit("/", 1)[0] if "/" in entry["file"] else entry["file"]
+                    must("dump_for_tree", obj.dump_for_tree, io.StringIO(), variant, arch, base)
+        after = must("dumps-after-tree-dumps", obj.dumps)
+        check(after == before, "bytes-depend-on-earlier-tree-dump", lambda: "extra_files: dumps() differs after dump_for_tree calls: %s" % first_difference(before, after))
     if fmt == "treeinfo":
         order = tim.scan_order(first)
         names = [s for s, _ in order]
